@@ -132,6 +132,13 @@ func genCase(r *hlib.Rand, c int, tier string, reqPer int, emit func(string)) {
 		dpool = append(dpool, dbase+int64(r.Range(-500, 500))*3600*1e9)
 	}
 	date := func() int64 {
+		if r.Chance(6) {
+			// near the ends of what int64 nanoseconds can hold (1677-09-21 … 2262-04-11)
+			if r.Bool() {
+				return math.MinInt64 + int64(r.Intn(5))*3600*1e9 + int64(r.Intn(3))
+			}
+			return math.MaxInt64 - int64(r.Intn(5))*3600*1e9 - int64(r.Intn(3))
+		}
 		if r.Chance(75) {
 			return dpool[r.Intn(len(dpool))]
 		}
@@ -354,10 +361,20 @@ func (g *reqGen) numBound(f string) string {
 	return hx(math.Float64bits(float64(r.Range(-20, 120)) / 2))
 }
 
+// farBounds: bounds given in SECONDS since the epoch ("s<seconds>"), most of them outside the window that int64
+// nanoseconds can represent (1677-09-21T00:12:43Z … 2262-04-11T23:47:16Z): 0001-01-01 (the zero time: an OPEN
+// bound), 0001-06-01, 1600-01-01, 1677-01-01, 1677-09-21 (just outside), 1677-09-22 (inside), 2262-01-01 (inside),
+// 2262-04-11 (inside), 2262-04-12 (just outside), 2263-01-01, 9999-12-31
+var farBounds = []int64{-62135596800, -62122550400, -11676096000, -9246096000, -9223372800, -9223286400,
+	9214646400, 9223286400, 9223372800, 9246182400, 253402214400}
+
 func (g *reqGen) dateBound(f string) string {
 	r := g.r
 	if r.Chance(15) {
 		return "z"
+	}
+	if r.Chance(25) {
+		return "s" + strconv.FormatInt(farBounds[r.Intn(len(farBounds))], 10)
 	}
 	if v, ok := g.someVal(f); ok && r.Chance(75) {
 		x, _ := strconv.ParseInt(v, 10, 64)
@@ -477,9 +494,7 @@ func (g *reqGen) aggs() (string, map[string]bool) {
 			for j, m := 0, r.Range(1, 4); j < m; j++ {
 				lo, hi := g.dateBound(f), g.dateBound(f)
 				if lo != "z" && hi != "z" && r.Chance(85) {
-					a, _ := strconv.ParseInt(lo, 10, 64)
-					b, _ := strconv.ParseInt(hi, 10, 64)
-					if a > b {
+					if boundNanos(lo).Cmp(boundNanos(hi)) > 0 {
 						lo, hi = hi, lo
 					}
 				}
@@ -746,13 +761,32 @@ func parseAgg(s string) *aggSpec {
 	return parseMetric(head)
 }
 
+// a date bound of the script: "z" = the zero time (open), "s<seconds since the epoch>" (may lie far outside what
+// int64 nanoseconds can hold), otherwise nanoseconds since the epoch
 func dateOf(s string) time.Time {
 	if s == "z" {
 		return time.Time{}
 	}
+	if strings.HasPrefix(s, "s") {
+		x, _ := strconv.ParseInt(s[1:], 10, 64)
+		return time.Unix(x, 0).UTC()
+	}
 	x, _ := strconv.ParseInt(s, 10, 64)
 	return time.Unix(0, x).UTC()
 }
+
+// the bound as an exact (unbounded) number of nanoseconds since the epoch: the harness's own arithmetic, no time.Time
+func boundNanos(s string) *big.Int {
+	if strings.HasPrefix(s, "s") {
+		x, _ := strconv.ParseInt(s[1:], 10, 64)
+		return new(big.Int).Mul(big.NewInt(x), big.NewInt(1000000000))
+	}
+	x, _ := strconv.ParseInt(s, 10, 64)
+	return big.NewInt(x)
+}
+
+// zero time given explicitly in seconds
+func isOpenBound(s string) bool { return s == "z" || s == "s-62135596800" }
 
 func (a *aggSpec) build() search.Aggregation {
 	switch a.kind {
@@ -954,13 +988,11 @@ func (s *h) rangeMembers(ids []string, a *aggSpec, rg string) []string {
 		} else {
 			for _, v := range canonDates(s.docs[id], a.f) {
 				ok := true
-				if b[0] != "z" {
-					x, _ := strconv.ParseInt(b[0], 10, 64)
-					ok = ok && v >= x
+				if !isOpenBound(b[0]) {
+					ok = ok && big.NewInt(v).Cmp(boundNanos(b[0])) >= 0
 				}
-				if b[1] != "z" {
-					x, _ := strconv.ParseInt(b[1], 10, 64)
-					ok = ok && v < x
+				if !isOpenBound(b[1]) {
+					ok = ok && big.NewInt(v).Cmp(boundNanos(b[1])) < 0
 				}
 				if ok {
 					out = append(out, id)
@@ -1143,6 +1175,15 @@ func (s *h) execReq(line string, st *reqStats) (string, string) {
 	st.Count("c:" + cs[0] + ":" + mode)
 	for _, sp := range specs {
 		st.Count("agg:" + sp.kind)
+		if sp.kind == "dranges" {
+			for _, rg := range sp.ranges {
+				for _, bd := range strings.Split(rg, "~") {
+					if strings.HasPrefix(bd, "s") && !isOpenBound(bd) && !boundNanos(bd).IsInt64() {
+						st.Count("date-bound:outside-int64-nanos")
+					}
+				}
+			}
+		}
 		for _, sub := range sp.subs {
 			if sub.kind == "card" || sub.kind == "quant" {
 				st.Count("nested:" + sub.kind)
